@@ -249,6 +249,11 @@ def run(ctx):
         if len(pl) <= 1023:
             one(ctx, pl, "frame-as-payload")
             ctx.hit("frame_as_payload")
+    # payloads of the frames in the repository's recorded logs
+    for k_, (name_, fr_) in enumerate(common.recorded_frames()):
+        if ctx.mine(k_):
+            one(ctx, fr_[3:-3], "recorded:" + name_)
+            ctx.hit("recorded_frames_checked")
     # frames whose CHECKSUM BYTES have chosen values (zero bytes, CR LF, sync bytes, '%', quotes, leading zeros ...)
     for _ in range(ctx.n(12, 200)):
         for t in streams.STEER_TARGETS:
